@@ -3,13 +3,11 @@
 package netmap
 
 import (
+	"runtime"
+
 	"github.com/nspcc-dev/neofs-sdk-go/netmap"
 	"github.com/panjf2000/ants/v2"
 )
-
-// VerifPoolRunning returns the number of tasks the processor's worker pool is
-// currently running (see the other processors' shims).
-func (np *Processor) VerifPoolRunning() int { return np.pool.Running() }
 
 // VerifNewOffline is New without the initial network map read from the chain
 // (the given map is used instead), for harness runs that have no chain behind
@@ -34,4 +32,17 @@ func VerifNewOffline(p *Params, cur *netmap.NetMap) (*Processor, error) {
 	}
 	processor.curMap.Store(cur)
 	return processor, nil
+}
+
+// VerifWaitIdle returns after every task handed to the processor's worker pool
+// before the call has finished. It needs a pool of size 1: a marker task is
+// accepted by the non-blocking pool only after the single worker finished its
+// previous task. Used by the C35/C37/C38 harness to wait for the registered
+// (asynchronous) handlers. Only code is added.
+func (np *Processor) VerifWaitIdle() {
+	done := make(chan struct{})
+	for np.pool.Submit(func() { close(done) }) != nil {
+		runtime.Gosched()
+	}
+	<-done
 }
